@@ -395,6 +395,11 @@ impl PreferenceManager {
                 prefs.prefs.insert(name.clone(), value.clone());
             }
         }
+        if let Some(language) = prefs.prefs.get("Language") {
+            if language.as_str().is_none() {    // the code below and elsewhere assumes it is a string
+                bail!("In the preference files, the value of 'Language' ({}) is not a string", yaml_to_string(language, 0));
+            }
+        }
         self.set_files_based_on_changes(&prefs)?;
         self.user_prefs = prefs;
         self.sys_prefs_file = new_sys_prefs_file;
@@ -492,30 +497,38 @@ impl PreferenceManager {
     /// If some preferences have changed, we may need to recompute other ones
     /// The key prefs are Language, SpeechStyle, and BrailleCode, along with DecimalSeparator
     fn set_files_based_on_changes(&mut self, new_prefs: &Preferences) -> Result<()> {
-        let old_language = self.user_prefs.prefs.get("Language");       // not set if first time
-        if old_language.is_none() {
+        if self.user_prefs.prefs.get("Language").is_none() {
             return Ok( () );            // if "Language" isn't set yet, nothing else is either -- first time through, so no updating needed.
         }
 
-        let old_language = old_language.unwrap();
-        let new_language = new_prefs.prefs.get("Language").unwrap();
-        if old_language != new_language {
-            let language_dir = self.rules_dir.to_path_buf().join("Languages");
-            self.set_speech_files(&language_dir, new_language.as_str().unwrap(), None)?;  // also sets style file
-        } else {
-            let old_speech_style = self.user_prefs.prefs.get("SpeechStyle").unwrap();
-            let new_speech_style = new_prefs.prefs.get("SpeechStyle").unwrap();
-            let language_dir = self.rules_dir.to_path_buf().join("Languages");
-            if old_speech_style != new_speech_style {
-                self.set_speech_files(&language_dir, new_language.as_str().unwrap(), new_speech_style.as_str())?;
+        // the values come from files that can be edited by hand, so they might be missing or not be strings (e.g., 'Language: true')
+        fn get_str<'a>(prefs: &'a Preferences, name: &str) -> Result<&'a str> {
+            return match prefs.prefs.get(name) {
+                Some(Yaml::String(value)) => Ok(value.as_str()),
+                Some(value) => bail!("In the preference files, the value of '{}' ({}) is not a string", name, yaml_to_string(value, 0)),
+                None => bail!("Didn't find the preference '{}' in the preference files", name),
             }
         }
 
-        let old_braille_code = self.user_prefs.prefs.get("BrailleCode").unwrap();
-        let new_braille_code = new_prefs.prefs.get("BrailleCode").unwrap();
+        let old_language = get_str(&self.user_prefs, "Language")?.to_string();
+        let new_language = get_str(new_prefs, "Language")?;
+        if old_language != new_language {
+            let language_dir = self.rules_dir.to_path_buf().join("Languages");
+            self.set_speech_files(&language_dir, new_language, None)?;  // also sets style file
+        } else {
+            let old_speech_style = get_str(&self.user_prefs, "SpeechStyle")?.to_string();
+            let new_speech_style = get_str(new_prefs, "SpeechStyle")?;
+            let language_dir = self.rules_dir.to_path_buf().join("Languages");
+            if old_speech_style != new_speech_style {
+                self.set_speech_files(&language_dir, new_language, Some(new_speech_style))?;
+            }
+        }
+
+        let old_braille_code = get_str(&self.user_prefs, "BrailleCode")?.to_string();
+        let new_braille_code = get_str(new_prefs, "BrailleCode")?;
         if old_braille_code != new_braille_code {
             let braille_code_dir = self.rules_dir.to_path_buf().join("Braille");
-            self.set_braille_files(&braille_code_dir, new_braille_code.as_str().unwrap())?;  // also sets style file
+            self.set_braille_files(&braille_code_dir, new_braille_code)?;  // also sets style file
         }
 
         return Ok( () );
